@@ -295,7 +295,7 @@ pub fn run_c11(ctx: &Ctx) {
             let nn = if a.len() > 16 { n / 4 } else { n };
             let seed = hseed(&[ctx.seed, ft as u64, i as u64, 0xD1]);
             let cell = Cell::new(Fam::Dirichlet, ft, a);
-            if !ctx.strict && ctx.in_known_region(&cell) && i >= 9 {
+            if !ctx.strict && ctx.in_known_region(&cell) && i >= 15 {
                 ctx.class("random_vectors_excluded_by_known_finding_region", 1);
                 continue;
             }
